@@ -334,7 +334,8 @@ def generate_spelled(ctx, lp, lq, lr, names, shortq, longq=(), spells=ALL_SPELLS
     key = ("spelled", lp, lq, lr, tuple(names), tuple(shortq), tuple(longq), tuple(spells), tuple(win_names), tuple(win_q))
     if key not in _gen_cache:
         sets = lambda xs: "{%s}" % ", ".join(str(x) for x in xs)       # noqa: E731
-        name = "Gen_PathsSpell_%d.cfg" % (len(_gen_cache) + 1)
+        import hashlib
+        name = "Gen_PathsSpell_%s.cfg" % hashlib.sha1(repr(key).encode()).hexdigest()[:12]      # (families are generated concurrently)
         cfg = tc.gen_cfg(ctx, name,
                          "CONSTANTS\n Seps = {1, 2}\n Cases = {TRUE}\n Wins = {TRUE, FALSE}\n Wins2 = {}\n LP = %d\n LQ = %d\n LR = %d\n"
                          " NameChars = %s\n WinNames = %s\n WinQ = %s\n ShortQ = %s\n LongQ = %s\n Spells = %s\n"
